@@ -757,18 +757,19 @@ func scanRaceLogs(bdir string) ([]mon.Violation, int) {
 			// standard library is a dapr/kit function (a harness callback invoked by
 			// kit has kit frames further down, but the racing access is the harness's)
 			var frames []string
+			created := raceCreationSections(blk)
 			for _, sec := range splitRaceSections(blk) {
-				for _, m := range anyRaceFrame.FindAllStringSubmatch(sec, -1) {
-					fn := m[1]
-					// the innermost frame that is dapr/kit or harness code owns the access
-					// (runtime, standard library and third-party frames above it are skipped)
-					if strings.HasPrefix(fn, "github.com/dapr/kit/") {
-						frames = append(frames, strings.TrimPrefix(fn, "github.com/dapr/kit/"))
-						break
+				owner := raceOwner(sec)
+				if owner == "" {
+					// the access stack shows only runtime / standard-library frames (e.g. the race
+					// detector's own WaitGroup Add-vs-Wait check): the goroutine's creation stack
+					// says whose goroutine it is
+					if m := raceGoroutineOf.FindStringSubmatch(sec); m != nil {
+						owner = raceOwner(created[m[1]])
 					}
-					if strings.HasPrefix(fn, "verif/") {
-						break
-					}
+				}
+				if strings.HasPrefix(owner, "github.com/dapr/kit/") {
+					frames = append(frames, strings.TrimPrefix(owner, "github.com/dapr/kit/"))
 				}
 			}
 			if len(frames) == 0 {
@@ -794,6 +795,39 @@ func scanRaceLogs(bdir string) ([]mon.Violation, int) {
 	return out, blocks
 }
 
+var raceGoroutineOf = regexp.MustCompile(`^by goroutine (\d+)`)
+var raceCreatedHdr = regexp.MustCompile(`^Goroutine (\d+) \([^)]*\) created at:`)
+
+// raceOwner returns the innermost frame of a stack section that is dapr/kit or harness
+// code ("" if there is none); runtime, standard library and third-party frames above it
+// are skipped.
+func raceOwner(sec string) string {
+	for _, m := range anyRaceFrame.FindAllStringSubmatch(sec, -1) {
+		fn := m[1]
+		if strings.HasPrefix(fn, "github.com/dapr/kit/") || strings.HasPrefix(fn, "verif/") {
+			return fn
+		}
+	}
+	return ""
+}
+
+// raceCreationSections maps a goroutine number to its "Goroutine N (...) created at:" stack.
+func raceCreationSections(blk string) map[string]string {
+	out := map[string]string{}
+	cur := ""
+	for _, l := range strings.Split(blk, "\n") {
+		t := strings.TrimSpace(l)
+		if m := raceCreatedHdr.FindStringSubmatch(t); m != nil {
+			cur = m[1]
+			continue
+		}
+		if cur != "" {
+			out[cur] += l + "\n"
+		}
+	}
+	return out
+}
+
 var anyRaceFrame = regexp.MustCompile(`(?m)^  (\S[^\n]*)\([^()\n]*\)\s*$`)
 var kitRaceFrame = regexp.MustCompile(`(?m)^\s+(github\.com/dapr/kit/[^\n]*)\([^()\n]*\)\s*$`)
 
@@ -813,6 +847,9 @@ func splitRaceSections(blk string) []string {
 				secs = append(secs, cur)
 			}
 			cur, in = "", true
+			if i := strings.Index(t, " by "); i >= 0 {
+				cur = strings.TrimSuffix(t[i+1:], ":") + "\n"
+			}
 			continue
 		}
 		if in {
